@@ -434,6 +434,9 @@ def generate(prop, run_seed, tier):
     failing = [c for c in pool if c["op"] in ("parse", "tokenize") and (c["read"], c["sql"]) in [(d, s) for d, s in corpus.FAILING]]
     n = rng.randint(3, 30 if tier == "quick" else 60)
     reuse_p = rng.choice([0.0, 0.3, 0.6, 0.9])
+    # half of the focus histories are fault-heavy: one step in four dies of stack exhaustion at a PRNG-chosen depth, i.e. somewhere
+    # inside whatever the component was doing (a speculative sub-parse, a nested generator call) - the later steps are judged
+    ex_rate = 0.25 if (focus is not None and rng.random() < 0.5) else 0.06
     steps = []
     for _ in range(n):
         if "gc" in faults and rng.random() < 0.05:
@@ -456,7 +459,7 @@ def generate(prop, run_seed, tier):
         elif focus is not None and rng.random() < 0.8:
             c = dict(focus[rng.randrange(len(focus))])
             c["comp"] = "reused:0"
-            if "stack_exhaustion" in faults and rng.random() < 0.06:
+            if "stack_exhaustion" in faults and rng.random() < ex_rate:
                 c["exhaust"] = rng.randrange(10, 120)
             if "abort_generate" in faults and c["op"] == "generate" and rng.random() < 0.4:
                 c["abort_at"] = rng.randrange(1, 48)
